@@ -531,6 +531,8 @@ func parseRib(data []byte, family bgp.Family, isAddPath bool) (*Rib, error) {
 		safi = data[2]
 		data = data[3:]
 		family = bgp.NewFamily(afi, safi)
+		// keep the family read from a RIB_GENERIC record: Serialize needs it
+		u.Family = family
 	}
 	prefix, err := bgp.NLRIFromSlice(family, data)
 	if err != nil {
